@@ -1,6 +1,7 @@
 package main
 
 import (
+	"go/parser"
 	"fmt"
 	"go/ast"
 	"go/token"
@@ -889,7 +890,10 @@ func checkC08CaseAnalysis(w *World, r *Report) {
 		// (b)
 		if searchMiss && target == "current" {
 			rest := exactSlashPieces(facts, defs, ndefs)
-			if onLeaf && rest["path[charsMatched:]"] {
+			narrow := narrowerThanDescent(af, at)
+			if onLeaf && rest["path[charsMatched:]"] && narrow != "" {
+				whyB = fmt.Sprintf("candidate at %s is recorded under the extra condition %s: the descent that follows is attempted for a {param} child and for a catch-all child alike, and neither matches the empty rest", w.Pos(at.Pos()), narrow)
+			} else if onLeaf && rest["path[charsMatched:]"] {
 				foundB = w.Pos(at.Pos())
 			} else {
 				whyB = fmt.Sprintf("candidate at %s: currentIsLeaf=%v restOfPathIsSlash=%v", w.Pos(at.Pos()), onLeaf, rest["path[charsMatched:]"])
@@ -1151,4 +1155,103 @@ func checkTsrParamsRebuilt(w *World, r *Report, id string) {
 	if n == 0 {
 		r.Unrecognised("%s: no append-built trailing-slash parameter copy found in the matchers", id)
 	}
+}
+
+// narrowerThanDescent inspects the condition of the if statement that directly encloses the candidate `at` (drop the
+// slash before a wildcard descent). Its conjuncts may be: !tsr, current.isLeaf(), tests of the rest of the path, and a
+// test that a wildcard child exists — which must cover both kinds (paramChildIndex and wildcardChildIndex), written
+// inline or as a one-expression helper method of the node. Any other conjunct narrows the case analysis; it is returned.
+func narrowerThanDescent(af *astFunc, at ast.Node) string {
+	var encl *ast.IfStmt
+	ast.Inspect(af.decl.Body, func(n ast.Node) bool {
+		if is, ok := n.(*ast.IfStmt); ok {
+			for _, st := range is.Body.List {
+				if st == at {
+					encl = is
+				}
+			}
+		}
+		return true
+	})
+	if encl == nil {
+		return ""
+	}
+	covers := func(e ast.Expr) (mentions, both bool) {
+		str := exprStr(e)
+		mentions = strings.Contains(str, "paramChildIndex") || strings.Contains(str, "wildcardChildIndex")
+		var dis []string
+		var fl func(x ast.Expr)
+		fl = func(x ast.Expr) {
+			x = ast.Unparen(x)
+			if be, ok := x.(*ast.BinaryExpr); ok && be.Op == token.LOR {
+				fl(be.X)
+				fl(be.Y)
+				return
+			}
+			dis = append(dis, exprStr(x))
+		}
+		fl(e)
+		has := func(f string) bool {
+			for _, d := range dis {
+				if d == "current."+f+">=0" || d == "current."+f+"!=-1" || d == "current."+f+">-1" {
+					return true
+				}
+			}
+			return false
+		}
+		return mentions, has("paramChildIndex") && has("wildcardChildIndex")
+	}
+	for _, f := range splitFact(astFact{encl.Cond, true}) {
+		str := exprStr(f.e)
+		switch {
+		case str == "tsr" && !f.val:
+			continue
+		case str == "current.isLeaf()" && f.val:
+			continue
+		}
+		idents := map[string]bool{}
+		ast.Inspect(f.e, func(n ast.Node) bool {
+			if id, ok := n.(*ast.Ident); ok {
+				idents[id.Name] = true
+			}
+			return true
+		})
+		if !idents["current"] {
+			continue // a test of the path / cursor only
+		}
+		e := f.e
+		// one-expression helper method on current: inline it
+		if call, ok := ast.Unparen(e).(*ast.CallExpr); ok && len(call.Args) == 0 {
+			if sel, ok := call.Fun.(*ast.SelectorExpr); ok && exprStr(sel.X) == "current" {
+				for _, file := range af.pkg.Syntax {
+					for _, d := range file.Decls {
+						fd, ok := d.(*ast.FuncDecl)
+						if !ok || fd.Name.Name != sel.Sel.Name || fd.Recv == nil || len(fd.Recv.List) != 1 || len(fd.Recv.List[0].Names) != 1 || fd.Body == nil || len(fd.Body.List) != 1 {
+							continue
+						}
+						if rs, ok := fd.Body.List[0].(*ast.ReturnStmt); ok && len(rs.Results) == 1 {
+							recvName := fd.Recv.List[0].Names[0].Name
+							mentions, _ := covers(rs.Results[0])
+							if mentions {
+								// judge the helper's expression with the receiver read as current
+								txt := strings.ReplaceAll(exprStr(rs.Results[0]), recvName+".", "current.")
+								if pe, err := parser.ParseExpr(txt); err == nil {
+									e = pe
+								}
+							}
+						}
+					}
+				}
+			}
+		}
+		mentions, both := covers(e)
+		if mentions && both && f.val {
+			continue
+		}
+		if !f.val {
+			return "!(" + str + ")"
+		}
+		return str
+	}
+	return ""
 }
